@@ -24,6 +24,16 @@ func Yield(ctx context.Context, site string) {
 	}
 }
 
+// CaseFn, when set, is called at the start of instrumented select case bodies with the value
+// that was received (nil for send cases and receives without a variable).
+var CaseFn func(ctx context.Context, site string, v any)
+
+func Case(ctx context.Context, site string, v any) {
+	if f := CaseFn; f != nil {
+		f(ctx, site, v)
+	}
+}
+
 // TryLocker is what sync.Mutex and sync.RWMutex offer.
 type TryLocker interface {
 	TryLock() bool
